@@ -4,7 +4,8 @@ undo; a check that reports a VIOLATION here raised a false alarm.  Usage: try_be
 import glob, json, os, subprocess, sys, time
 from concurrent.futures import ThreadPoolExecutor
 V = os.path.normpath(os.path.join(os.path.dirname(os.path.abspath(__file__)), ".."))
-ks = sys.argv[1:] or sorted(os.path.basename(f)[:-5] for f in glob.glob(os.path.join(V, "benign", "*.diff")))
+BDIR = os.environ.get("BENIGN_DIR", "benign")
+ks = sys.argv[1:] or sorted(os.path.basename(f)[:-5] for f in glob.glob(os.path.join(V, BDIR, "*.diff")))
 props = ["C%02d" % i for i in range(1, 21)]
 
 
@@ -14,7 +15,7 @@ def sh(cmd, **kw):
 
 res = {}
 for k in ks:
-    patch = os.path.join(V, "benign", k + ".diff")
+    patch = os.path.join(V, BDIR, k + ".diff")
     assert sh("git -C /repo status --porcelain").stdout.strip() == "", "/repo not clean"
     assert sh("git -C /repo apply %s" % patch).returncode == 0, "patch %s does not apply" % k
     try:
@@ -32,4 +33,4 @@ for k in ks:
     finally:
         sh("git -C /repo checkout -- .")
         sh("git -C %s checkout -- evidence" % V)
-json.dump(res, open(os.path.join(V, "benign", "result.json"), "w"), indent=1)
+json.dump(res, open(os.path.join(V, BDIR, "result.json"), "w"), indent=1)
